@@ -180,6 +180,11 @@ Record robs := mkObs {
   b_deletes : list (Z * bool);  (* Delete calls: name, and whether the controller had just
                                    fetched that job (the Replace path does, removeOldestJobs does not) *)
   b_active_after : list jref;   (* in-memory status.active after *)
+  b_conflicts : list (Z * Z);   (* Create calls answered AlreadyExists: (name, schedule time) *)
+  b_lenient : bool;             (* the job client can fetch a job without a namespace *)
+  b_err : Z;                    (* error class of syncCronJob *)
+  b_last_after : option Z;      (* in-memory status.lastScheduleTime after *)
+  b_upd : bool;                 (* syncCronJob asked for a status update *)
 }.
 
 Definition count_phase (p : phase) (jobs : list job) : Z :=
@@ -199,6 +204,34 @@ Definition within_limit (lim : option Z) (p : phase) (o : robs) : bool :=
   | None => deleted_of p o =? 0
   | Some mx => deleted_of p o <=? Z.max 0 (count_phase p (b_jobs o) - mx)
   end.
+
+(* adoption by name: a Create answered AlreadyExists starts nothing; when the
+   conflicting job is an unfinished job of this CronJob (and can be fetched) it
+   is referenced in status.active afterwards and - unless it was referenced
+   before - lastScheduleTime records its schedule time and the status update is
+   requested, so that Forbid and the already-processed check hold from then on;
+   a foreign or finished conflicting job is only reported *)
+Definition law_adoption (o : robs) : bool :=
+  forallb (fun c : Z * Z =>
+    let '(nm, t) := c in
+    match b_creates o with [] => true | _ => false end &&
+    match find_job (b_jobs o) nm with
+    | None => mem nm (map fst (b_creates o))   (* cannot conflict with nothing *)
+    | Some j =>
+      if mem nm (map fst (b_deletes o)) then true
+      else
+        match j_owner j with
+        | OwnThis =>
+          if finished (j_phase j) then true
+          else if b_lenient o then
+            (b_err o =? 0) &&
+            existsb (fun r => (r_name r =? nm) && (r_uid r =? j_uid j)) (b_active_after o) &&
+            (existsb (fun r => r_uid r =? j_uid j) (b_active o) ||
+             (match b_last_after o with Some l => l =? t | None => false end && b_upd o))
+          else negb (b_err o =? 0)
+        | _ => true
+        end
+    end) (b_conflicts o).
 
 Definition law_reconcile (tbl : list Z) (o : robs) : bool :=
   let sp := b_spec o in
@@ -241,7 +274,8 @@ Definition law_reconcile (tbl : list Z) (o : robs) : bool :=
         end
     | None => false
     end) (b_deletes o) &&
-  within_limit (c_succ_limit sp) PhCompleted o && within_limit (c_fail_limit sp) PhFailed o.
+  within_limit (c_succ_limit sp) PhCompleted o && within_limit (c_fail_limit sp) PhFailed o &&
+  law_adoption o.
 
 (* a whole history: every schedule point started at most once, in order *)
 Definition law_history (created : list Z) : bool := increasing created.
